@@ -55,6 +55,7 @@ Flags(src) ==
        {[AllOn(src) EXCEPT !.off = {t}] : t \in Types}                                  \* every single switch
   \cup {[AllOn(src) EXCEPT !.master = FALSE]}                                            \* master switch
   \cup {[AllOn(src) EXCEPT !.off = S] : S \in SUBSET Special}                            \* the "special check" group
+  \cup {[AllOn(src) EXCEPT !.off = Types \ {t}] : t \in Types}                          \* a single check left on
   \cup (IF Level = "thorough"
         THEN {[AllOn(src) EXCEPT !.off = {t1, t2}] : t1 \in Types, t2 \in Types}        \* all pairs
         ELSE {[AllOn(src) EXCEPT !.off = {t, t + 1}] : t \in Types \ {25}}              \* adjacent pairs
